@@ -143,6 +143,60 @@ fn gen_morsel_template(r: &mut Rng, cat: &Catalog) -> Option<(String, Value, Vec
     Some((sql, plan, tags))
 }
 
+/// Stratum `shape:clustered-range-agg`: one table t0(k, v, g) whose integer column `k` is SORTED and NULL-free (k = base + i), written
+/// with small row groups (3-8 per file, 1-3 files) so that the footer min/max of `k` cluster; an aggregate over the unaliased
+/// table (-> MorselAggregateExec / ParallelParquetSource) under a two-sided range, BETWEEN or a one-sided range on `k` whose bounds
+/// sit on row-group boundaries, boundary +-1 or inside a row group: earlier row groups are pruned, some are proved all-true (the
+/// decoder filter is dropped for them), the rest only partly match.  Returns the whole case (own catalog, files, rg).
+fn gen_clustered_range(r: &mut Rng) -> Value {
+    use crate::fams::fam_sql::sqlgen::catalog::{ColSpec, TableSpec};
+    use crate::fams::fam_sql::sqlgen::{ColTy, Val};
+    let files = 1 + r.below(3) as usize;
+    let nrg = 3 + r.below(6) as usize;                    // row groups per file
+    let rg = *r.pick(&[3usize, 4, 5, 7, 10, 16]);         // rows per row group
+    let n = files * nrg * rg;
+    let base = *r.pick(&[0i64, 0, 1, -7, 100]);
+    let rows: Vec<Vec<Val>> = (0..n).map(|i| {
+        let v = if r.chance(1, 8) { Val::Null } else { Val::I(r.range(-2, 9)) };
+        vec![Val::I(base + i as i64), v, Val::I((i % 3) as i64)]
+    }).collect();
+    let col = |name: &str, null_pct: u8, unique: bool| ColSpec { name: name.into(), cty: ColTy::I64, null_pct, boundary: false, special: false, unique };
+    let nb = 1 + r.below(3) as usize;
+    let cuts: Vec<usize> = (0..nb).map(|i| n * (i + 1) / nb - n * i / nb).collect();
+    let cat = Catalog { tables: vec![TableSpec { name: "t0".into(), cols: vec![col("k", 0, true), col("v", 10, false), col("g", 0, false)], rows, cuts }] };
+    // a bound: a row-group boundary (first key of a row group), boundary +- 1, or a key inside a row group
+    let bound = |r: &mut Rng| -> i64 {
+        let b = base + (r.below((files * nrg) as u64 + 1) as usize * rg) as i64;
+        match r.below(4) { 0 => b, 1 => b - 1, 2 => b + 1, _ => b + r.below(rg as u64) as i64 }
+    };
+    let (mut lo, mut hi) = (bound(r), bound(r));
+    if lo > hi { std::mem::swap(&mut lo, &mut hi); }
+    let lit = |x: i64| json!({"lit": {"i": x}});
+    let sq = |x: i64| if x < 0 { format!("({})", x) } else { x.to_string() };
+    let k = json!({"col": 0});
+    let (wsql, wplan, wtag) = match r.below(5) {
+        0 | 1 => { let (a, b) = if r.chance(1, 2) { ("ge", ">=") } else { ("gt", ">") }; let (c, d) = if r.chance(1, 2) { ("le", "<=") } else { ("lt", "<") };
+              (format!("k {} {} AND k {} {}", b, sq(lo), d, sq(hi)), json!({"bin": ["and", {"bin": [a, k, lit(lo)]}, {"bin": [c, k, lit(hi)]}]}), "two_sided") }
+        2 => (format!("k BETWEEN {} AND {}", sq(lo), sq(hi)), json!({"between": [k, lit(lo), lit(hi), false]}), "between"),
+        3 => { let (a, b) = *r.pick(&[("ge", ">="), ("gt", ">")]); (format!("k {} {}", b, sq(lo)), json!({"bin": [a, k, lit(lo)]}), "lower") }
+        _ => { let (a, b) = *r.pick(&[("le", "<="), ("lt", "<")]); (format!("k {} {}", b, sq(hi)), json!({"bin": [a, k, lit(hi)]}), "upper") }
+    };
+    let grouped = r.chance(1, 3);
+    let mut sel: Vec<String> = vec![]; let mut keys: Vec<Value> = vec![];
+    if grouped { sel.push("g".into()); keys.push(json!({"col": 2})); }
+    let mut aggs: Vec<Value> = vec![json!({"fn": "count_star", "arg": {"lit": null}, "distinct": false})];
+    sel.push("COUNT(*)".into());
+    for (f, c, name) in [("sum", 1, "v"), ("max", 0, "k"), ("min", 0, "k"), ("count", 1, "v"), ("sum", 0, "k")] {
+        if r.chance(1, 2) { sel.push(format!("{}({})", f.to_uppercase(), name)); aggs.push(json!({"fn": f, "arg": {"col": c}, "distinct": false})); }
+    }
+    let mut sql = format!("SELECT {} FROM t0 WHERE {}", sel.join(", "), wsql);
+    if grouped { sql.push_str(" GROUP BY g"); }
+    let plan = json!({"agg": {"keys": keys, "aggs": aggs, "q": {"filter": {"subs": [], "p": wplan, "q": {"scan": 0}}}}});
+    json!({"kind": "sql", "prop": "C04", "mode": "meta", "sql": sql, "plan": plan, "tables": cat.tables_json(), "cat": cat.meta_json(),
+           "tags": ["shape:clustered-range-agg", format!("range:{}", wtag), if grouped { "range:grouped" } else { "range:global" }],
+           "engine_defined": false, "cfgs": ["mem1"], "files": files, "rg": rg})
+}
+
 fn spawn_all() -> Vec<Kid> {
     VARIANTS.iter().map(|(name, envs)| {
         let mut e: Vec<(String, String)> = envs.iter().map(|(k, v)| (k.to_string(), v.to_string())).collect();
@@ -183,20 +237,25 @@ pub fn main(o: &Opts) {
         while n < o.cases && attempts < o.cases * 6 + 16 {
             if attempts % 5 == 0 { cat = gen_catalog(&mut r, &copts); }
             attempts += 1;
-            let mut qr = r.fork();
-            let g = Gen::new(&mut qr, &cat, &gopts).generate(attempts);
-            if g.engine_defined { continue; }
-            let mut case = make_case("C04", &cat, &g.q, &g.tags, g.engine_defined, &[ExecCfg::mem_single()], true);
-            // two cases in five: an aggregate template that reaches MorselAggregateExec
-            if attempts % 5 < 2 {
-                match gen_morsel_template(&mut r, &cat) {
-                    Some((sql, plan, tags)) => { case["sql"] = json!(sql); case["plan"] = plan; case["tags"] = json!(tags); }
-                    None => continue,
+            // three cases in ten: the clustered-range aggregate stratum (own table, own files x row groups)
+            let clustered = attempts % 10 < 3;
+            let case = if clustered { gen_clustered_range(&mut r) } else {
+                let mut qr = r.fork();
+                let g = Gen::new(&mut qr, &cat, &gopts).generate(attempts);
+                if g.engine_defined { continue; }
+                let mut case = make_case("C04", &cat, &g.q, &g.tags, g.engine_defined, &[ExecCfg::mem_single()], true);
+                // three more in ten: an aggregate template that reaches MorselAggregateExec
+                if attempts % 10 < 6 {
+                    match gen_morsel_template(&mut r, &cat) {
+                        Some((sql, plan, tags)) => { case["sql"] = json!(sql); case["plan"] = plan; case["tags"] = json!(tags); }
+                        None => continue,
+                    }
                 }
-            }
-            case["kind"] = json!("sql");
-            case["files"] = json!(*r.pick(&[1u64, 1, 2, 3, 4]));
-            case["rg"] = json!(*r.pick(&[1u64, 7, 64, 1024]));
+                case["kind"] = json!("sql");
+                case["files"] = json!(*r.pick(&[1u64, 1, 2, 3, 4]));
+                case["rg"] = json!(*r.pick(&[1u64, 7, 64, 1024]));
+                case
+            };
             // pre-flight in the default child (10 s): statements whose in-memory single-batch run fails or is huge are not used
             let pre = kids[0].ask(&case, 20);
             let ok_rows = pre["runs"].as_object().and_then(|m| m.iter().find(|(k, _)| k.starts_with("mem1@"))).and_then(|(_, v)| v["ok"].as_array().map(|a| a.len()));
